@@ -27,3 +27,12 @@ CHECKS['C16'] = dict(
          'independent automaton (packets, INFO order, return/exception, bytes sent, chunk bound, progress).',
     note='Chunk size fixed to 1 KiB via the module constant; ASCII images; erase() return value and the exact '
          'exception class for malformed DATA sizes are not compared (the statement does not fix them).')
+
+CHECKS['C07'] = dict(
+    engine='enum', level='exploration', design_ref='DESIGN.md#c07',
+    technique='bounded-exhaustive input enumeration (limit grid x boundary probes) vs exact-arithmetic reference',
+    text='Every combination of a finite limit grid (ints, floats, bools, +-0.0, inf, 2**63, typed numeric strings) with '
+         'a probe set containing each bound, its float neighbours, +-0.0, +-inf, NaN, None and huge ints is evaluated '
+         'for in_range/equals/within_percent/matches_regex/all_in_range/all_equals/pivots, plus constructor consistency, '
+         'with_args sibling derivations, equality and deep copies; decisions are compared with a Fraction-exact oracle.',
+    note='Finite grids (listed in the harness); cases the statement leaves open are skipped (see assumptions in the evidence).')
